@@ -5,3 +5,5 @@ mod util;
 mod c08;
 #[cfg(kani)]
 mod c14;
+#[cfg(kani)]
+mod c14b;
